@@ -130,13 +130,19 @@ func init() {
 		e.setResult(res, []string{c})
 		return true
 	}}
+	L["(*net/http.Request).Context"] = LibModel{Doc: "deterministic; never returns nil", Fn: func(e *FuncEnc, in ssa.Instruction, av []ssa.Value, a []string, rts []types.Type, res ssa.Value) bool {
+		f := e.D.UF("lib_"+mangle("(*net/http.Request).Context")+"_r0", []string{"Int"}, "Iface")
+		e.D.Axiom("reqctx:nonnil", "(forall ((r Int)) (! (not (= (if_tag ("+f+" r)) 0)) :pattern (("+f+" r))))")
+		e.setVal(res, "Iface", sx(f, a[0]))
+		return true
+	}}
 	L["net/http.CanonicalHeaderKey"] = pureUF("canonical MIME header key: a deterministic function of its argument")
 	for _, n := range []string{"strings.ReplaceAll", "strings.Contains", "strings.ToLower", "strings.ToUpper", "strings.Title", "strings.Join", "strings.TrimSpace", "strings.Repeat", "strings.Count", "strings.EqualFold", "strings.LastIndex", "strings.ContainsRune", "strings.IndexByte", "strings.Trim", "strings.TrimLeft", "strings.TrimRight", "strings.Fields",
 		"path.Dir", "path.Base", "path.Ext", "path/filepath.Join", "path/filepath.Base", "path/filepath.Ext", "path/filepath.Dir",
 		"unicode.IsLetter", "unicode.IsUpper", "unicode.IsDigit", "unicode.IsLower", "unicode.ToUpper", "unicode.ToLower",
 		"strconv.Itoa", "strconv.Quote", "strconv.FormatInt", "strconv.FormatFloat", "strconv.FormatBool", "strconv.FormatUint",
 		"net/url.PathEscape", "net/url.QueryEscape",
-		"(*net/http.Request).Context", "context.WithValue", "(*net/http.Request).WithContext",
+		"context.WithValue", "(*net/http.Request).WithContext",
 		"(*golang.org/x/text/cases.Caser).String", "(golang.org/x/text/cases.Caser).String",
 	} {
 		L[n] = pureUF("deterministic function of its arguments, no effects")
